@@ -1,8 +1,9 @@
 use crate::{
     constants::{
         LmsTreeIdentifier, D_TOPSEED, HSS_COMPRESSED_USED_LEAFS_SIZE, ILEN, MAX_ALLOWED_HSS_LEVELS,
-        MAX_HASH_SIZE, MAX_SEED_LEN, REF_IMPL_MAX_PRIVATE_KEY_SIZE, SEED_CHILD_SEED,
-        SEED_SIGNATURE_RANDOMIZER_SEED, TOPSEED_D, TOPSEED_LEN, TOPSEED_SEED, TOPSEED_WHICH,
+        MAX_HASH_SIZE, MAX_SEED_LEN, REF_IMPL_MAX_ALLOWED_HSS_LEVELS,
+        REF_IMPL_MAX_PRIVATE_KEY_SIZE, SEED_CHILD_SEED, SEED_SIGNATURE_RANDOMIZER_SEED, TOPSEED_D,
+        TOPSEED_LEN, TOPSEED_SEED, TOPSEED_WHICH,
     },
     hasher::HashChain,
     hss::{definitions::HssPrivateKey, seed_derive::SeedDerive},
@@ -111,6 +112,10 @@ impl<H: HashChain> ReferenceImplPrivateKey<H> {
 
         result.extend_from_slice(&self.compressed_used_leafs_indexes.count.to_be_bytes());
         result.extend_from_slice(&self.compressed_parameter.0);
+        // The key format always carries 8 parameter bytes, whatever this build's level limit is
+        for _ in MAX_ALLOWED_HSS_LEVELS..REF_IMPL_MAX_ALLOWED_HSS_LEVELS {
+            result.push(PARAM_SET_END);
+        }
         result.extend_from_slice(self.seed.as_slice());
 
         result
@@ -129,8 +134,17 @@ impl<H: HashChain> ReferenceImplPrivateKey<H> {
         result.compressed_used_leafs_indexes =
             CompressedUsedLeafsIndexes::from_slice(compressed_used_leafs_indexes);
 
-        let compressed_parameter = read_and_advance(data, MAX_ALLOWED_HSS_LEVELS, &mut index);
-        result.compressed_parameter = CompressedParameterSet::from_slice(compressed_parameter)?;
+        let compressed_parameter =
+            read_and_advance(data, REF_IMPL_MAX_ALLOWED_HSS_LEVELS, &mut index);
+        // Levels beyond the limit of this build must be unused
+        if compressed_parameter[MAX_ALLOWED_HSS_LEVELS..]
+            .iter()
+            .any(|&parameter| parameter != PARAM_SET_END)
+        {
+            return Err(());
+        }
+        result.compressed_parameter =
+            CompressedParameterSet::from_slice(&compressed_parameter[..MAX_ALLOWED_HSS_LEVELS])?;
 
         let seed_len = result.seed.len();
         result
